@@ -50,6 +50,29 @@ def bad_statements(rng):
         ("shift amount of a wrong type", f"let {v}: u8 = 1u8 << 1u16;"),
         ("negation of unsigned", f"let {v}: u8 = -(1u8);"),
         ("tuple pattern with a wrong number of fields", f"let ({v}, w_{v}, x_{v}) = (1u8, 2u8);"),
+        # the same rules in ASSIGNMENT-TARGET position (accessor chains of `x.a[i].0 = v`)
+        ("Boolean literal as index of an assignment target", f"let mut {v}: [u8; 2] = [1u8, 2u8]; {v}[true] = 3u8;"),
+        ("comparison as index of an assignment target", f"let mut {v}: [u8; 2] = [1u8, 2u8]; {v}[1u8 < 2u8] = 3u8;"),
+        ("equality as index of an assignment target", f"let mut {v}: [u8; 2] = [1u8, 2u8]; {v}[1u8 == 2u8] = 3u8;"),
+        ("short-circuit operator as index of an assignment target", f"let mut {v}: [u8; 2] = [1u8, 2u8]; {v}[true && false] = 3u8;"),
+        ("negated comparison as index of an assignment target", f"let mut {v}: [u8; 2] = [1u8, 2u8]; {v}[!(1u8 < 2u8)] = 3u8;"),
+        ("if of comparisons as index of an assignment target", f"let mut {v}: [u8; 2] = [1u8, 2u8]; {v}[if true {{ 1u8 < 2u8 }} else {{ 2u8 < 1u8 }}] = 3u8;"),
+        ("unit block as index of an assignment target", f"let mut {v}: [u8; 2] = [1u8, 2u8]; {v}[{{ let w_{v}: u8 = 1u8; }}] = 3u8;"),
+        ("signed index of an assignment target", f"let mut {v}: [u8; 2] = [1u8, 2u8]; {v}[1i32] = 3u8;"),
+        ("u8 index of an assignment target", f"let mut {v}: [u8; 2] = [1u8, 2u8]; {v}[1u8] = 3u8;"),
+        ("comparison as nested index of an assignment target", f"let mut {v}: ([u8; 2], bool) = ([1u8, 2u8], true); {v}.0[1u8 < 2u8] = 3u8;"),
+        ("comparison as second index of an assignment target", f"let mut {v}: [[u8; 2]; 2] = [[1u8, 2u8], [1u8, 2u8]]; {v}[0usize][1u8 < 2u8] = 3u8;"),
+        ("comparison as index of a compound assignment target", f"let mut {v}: [u8; 2] = [1u8, 2u8]; {v}[1u8 < 2u8] += 3u8;"),
+        ("tuple index out of range in an assignment target", f"let mut {v}: (u8, u8) = (1u8, 2u8); {v}.2 = 3u8;"),
+        ("index into a non-array in an assignment target", f"let mut {v}: (u8, u8) = (1u8, 2u8); {v}[0usize] = 3u8;"),
+        ("tuple access on an array in an assignment target", f"let mut {v}: [u8; 2] = [1u8, 2u8]; {v}.0 = 3u8;"),
+        ("assigned value of a wrong type through an index", f"let mut {v}: [u8; 2] = [1u8, 2u8]; {v}[0usize] = 3u16;"),
+        ("assigned value of a wrong type through a tuple access", f"let mut {v}: (u8, bool) = (1u8, true); {v}.1 = 3u8;"),
+        ("assignment through an index to an immutable binding", f"let {v}: [u8; 2] = [1u8, 2u8]; {v}[0usize] = 3u8;"),
+        ("comparison as index of an array read", f"let {v}: u8 = [1u8, 2u8][1u8 < 2u8];"),
+        ("comparison as size of an array repeat", f"let {v}: [u8; 2] = [1u8; 1u8 < 2u8];"),
+        ("comparison as shift amount", f"let {v}: u8 = 1u8 << (1u8 < 2u8);"),
+        ("comparison as range bound of a for loop", f"for it_{v} in 0usize..(1u8 < 2u8) {{ let w_{v}: usize = it_{v}; }}"),
     ]
 
 
